@@ -16,6 +16,8 @@ for d in sorted(glob.glob('/verif/seeded/*')):
     verdict = 'caught' if m.get('caught') else 'NOT caught'
     if hist:
         verdict = 'caught after strengthening' if m.get('caught') else 'NOT caught'
+    if m.get('expected') == 'silent':
+        verdict = 'not caught, by design: allowed by the documented contract (see meta.json note)'
     rows.append(f"| {name} | {summ} | {verdict} | {'; '.join(sigs[:2])} |")
 print("| id | change (independent sub-agent, given only the property text) | result | signature(s) reported |")
 print("|---|---|---|---|")
